@@ -28,6 +28,27 @@ CLAIMS = {
         technique="field-dependency dataflow over construction routes + per-bit truth tables of extracted bitwise expressions + table agreement",
         design_ref="5/C06",
     ),
+    "C13": dict(
+        category="other",
+        text="Static rules decide the structural clauses: (R13.1) the width table is well-formed for binary search (sorted, disjoint, widths in {-1,0,1,2}), agrees with the ASCII shortcut and has no writer - exhaustive over all entries; "
+             "(R13.2) the search moves only the correct bound strictly past the probe on each comparison outcome, returns the table width on a hit and 1 on a miss; "
+             "(R13.3/R13.6) every cache in cells.py/_lru_cache.py/segment.py is transparent: same key for lookup and store, stored value = returned value, value depends only on the key (def-use closure incl. control dependence) and never-written constants - this is 'regardless of what was measured before'; "
+             "(R13.4) the style of every padding segment/helper has the `style` parameter as its only reaching definition; (R13.5) pad counts and crop targets are exactly requested length minus measured cells (linear forms + reaching definitions). "
+             "Not decided: the table equals Unicode, chop_cells for all strings, character/style preservation of cropped lines.",
+        note=COMMON_NOTE + "functools.lru_cache and OrderedDict behave as documented.",
+        technique="literal-table validation + role-based check of the binary search + memoisation soundness by def-use/control-dependence closure + reaching definitions + linear forms",
+        design_ref="5/C13",
+    ),
+    "C18": dict(
+        category="proof",
+        text="Abstract interpretation (intervals x enum constants x records, path-forking with refinement; sa/absint.py) of Color.downgrade for all 5 colour types x 4 target systems and of Color.get_ansi_codes for all types x fg/bg, "
+             "over ALL component/number values at once: proves every result is in gamut ([0,15] for standard/windows, [0,255] else), default and already-representable colours return self, re-conversion returns the result unchanged, greys land on {16,231} U [232,255], the cube index is 16+36r+6g+b, no path raises or indexes a palette out of range, "
+             "and the SGR parameter forms are exactly 39/49, 30-37/90-97, 40-47/100-107, 38;5;n, 38;2;r;g;b. (R18.5) match() is builtin min over every palette index keyed by a distance that pairs like components; (R18.6) caches in color/palette are sound; (R18.7) all construction sites classify numbers 0..255 identically. "
+             "Obligations = (case, path) pairs; all must be discharged. Not decided: palette contents are the colours terminals use; the metric's weights.",
+        note=COMMON_NOTE + "colorsys.rgb_to_hls maps [0,1]^3 to [0,1]^3; round is monotone; builtin min(key=) is an argmin; colours satisfy the constructor invariants (number/component ranges).",
+        technique="abstract interpretation (interval/enum/record domains) of the conversion code over all colour types x systems",
+        design_ref="5/C18",
+    ),
 }
 
 NA = {
